@@ -32,7 +32,7 @@ func init() {
 		Level: "exploration",
 		Modes: []Mode{{Name: "inbound", Weight: 5}, {Name: "outbound", Weight: 3}, {Name: "batch", Weight: 4}},
 		Gen:   genC13, Run: runC13, Enum: enumC13,
-		QuickRuns: 4000, ThoroughRuns: 40000,
+		QuickRuns: 4000, ThoroughRuns: 240000,
 		Rule: "plan = (limit kind tiny/default/disabled, framing, exact wire size at limit-1/limit/limit+1/10x limit/32767..32769/40000/65536, network chunking/latency, stalls) from VERIF_SEED; " +
 			"non-trivial = the decisive message was actually sent on an established session and the accept/reject outcome observed; distinct = distinct (mode, framing, limit kind, size class, outcome) tuples x history digest",
 		Assumptions: []string{
